@@ -105,6 +105,8 @@ func c40NameRun(c c40NameCase) verifkit.Result {
 
 var c40Pieces = []string{
 	"a", "Z", "0", "_", " ", ".", "-", "*", "[", "]", "é", "ß", "玩", "家", "Ａ", "٣", "😀", "​", "́", "İ", "ǅ",
+	// decimal digits and letters of other scripts (unicode.IsDigit / IsLetter are true for them)
+	"１", "９", "٠", "۹", "߀", "᠐", "𝟘", "𝟙", "ａ", "Ω", "я", "ⅷ", "²",
 	"\xff", "\xc3", "\xe7\x8e", "\x00", "\n", "\x7f", "%", "Player", "LLG iced", "xX_", "abcdefgh",
 }
 
